@@ -31,25 +31,42 @@ class ProposalError(Exception):
     """The proposal left the support of the operator's kernel (q(x'|x) = 0)."""
 
 
+def _rows(changed, s):
+    """Group changed flat indices of one parameter by the index along its first dimension."""
+    k = changed[0][0]
+    t = s[k]
+    if any(c[0] != k for c in changed):
+        return None
+    row_len = int(t[0].numel()) if t.dim() > 1 else 1
+    rows = sorted({c[1] // row_len for c in changed})
+    return k, rows, row_len
+
+
 def scaler(op_params, tuning, s, s2):
+    """x' = f x on one entry along the first dimension (a scalar, or a whole row of d
+    entries), f uniform on [a, 1/a].  Dimension matching (x, f) -> (f x, 1/f) has Jacobian
+    f^(d-2), the uniform densities cancel: log ratio = (d - 2) log f  (= -log f for d = 1)."""
     a = tuning
     ch = _changed(s, s2)
-    ch = [c for c in ch if c[0] in op_params]
-    other = [c for c in _changed(s, s2) if c[0] not in op_params]
+    other = [c for c in ch if c[0] not in op_params]
     if other:
         raise ProposalError("scaler changed parameters it does not own: %s" % other[:3])
     if len(ch) == 0:
         return 0.0, {"moved": 0}
-    if len(ch) > 1:
-        raise ProposalError("scaler changed %d coordinates" % len(ch))
-    k, i = ch[0]
-    x = float(s[k].reshape(-1)[i])
-    x2 = float(s2[k].reshape(-1)[i])
-    f = x2 / x
+    g = _rows(ch, s)
+    if g is None or len(g[1]) != 1:
+        raise ProposalError("scaler changed more than one entry along the first dimension: %s" % ch[:4])
+    k, rows, d = g
+    lo = rows[0] * d
+    x = s[k].reshape(-1)[lo : lo + d].to(dtype=s[k].dtype).tolist()
+    x2 = s2[k].reshape(-1)[lo : lo + d].tolist()
+    fs = [b / a_ for a_, b in zip(x, x2) if a_ != 0.0]
+    f = fs[0]
+    if any(abs(fi - f) > 1e-9 * abs(f) for fi in fs):
+        raise ProposalError("scaler did not scale the entry by one common factor: %s" % fs[:4])
     if not (a * (1 - 1e-9) <= f <= (1.0 / a) * (1 + 1e-9)):
         raise ProposalError("scale factor %r outside [a, 1/a] for a=%r" % (f, a))
-    # q(x'|x) = 1 / ((1/a - a) x)  on [a x, x / a]  =>  log q(x|x') - log q(x'|x) = log x - log x'
-    return math.log(abs(x)) - math.log(abs(x2)), {"moved": 1, "factor": f}
+    return (d - 2) * math.log(f), {"moved": d, "factor": f}
 
 
 def sliding(op_params, tuning, s, s2):
@@ -58,13 +75,16 @@ def sliding(op_params, tuning, s, s2):
     other = [c for c in allc if c[0] not in op_params]
     if other:
         raise ProposalError("sliding window changed parameters it does not own: %s" % other[:3])
-    if len(allc) > 1:
-        raise ProposalError("sliding window changed %d coordinates" % len(allc))
     if allc:
-        k, i = allc[0]
-        d = float(s2[k].reshape(-1)[i]) - float(s[k].reshape(-1)[i])
-        if abs(d) > 0.5 * w * (1 + 1e-9) + 1e-300:
-            raise ProposalError("shift %r outside the window of width %r" % (d, w))
+        g = _rows(allc, s)
+        if g is None or len(g[1]) != 1:
+            raise ProposalError("sliding window changed more than one entry along the first dimension: %s" % allc[:4])
+        k = g[0]
+        ds = [float(s2[k].reshape(-1)[i]) - float(s[k].reshape(-1)[i]) for _, i in allc]
+        if any(abs(d - ds[0]) > 1e-9 * max(abs(ds[0]), 1e-300) + 1e-15 for d in ds):
+            raise ProposalError("sliding window shifted the entries of a row by different amounts: %s" % ds[:4])
+        if abs(ds[0]) > 0.5 * w * (1 + 1e-9) + 1e-300:
+            raise ProposalError("shift %r outside the window of width %r" % (ds[0], w))
     return 0.0, {"moved": len(allc)}
 
 
